@@ -310,8 +310,15 @@ def r4(ctx):
     ctx.ob(w.qual, "duplicate-position-bookkeeping", ok, w.loc(), "prev_pos follows record.start" if ok else "prev_pos / pos bookkeeping changed: %s" % [u(v) for s, v in pp])
     # unphased branch clears only the written tag
     els = [s for s in util.store_sites(w.node) if s.kind == "subscript" and u(s.target.slice) == "self.tag"]
-    ok = len(els) == 1 and isinstance(els[0].value, ast.Constant) and els[0].value.value is None
-    ctx.ob(w.qual, "unphased-call-gets-no-tag", ok, w.loc(els[0].stmt) if els else w.loc(), "a target call that is not phased gets call[self.tag] = None" if ok else "the unphased branch does not clear the tag")
+    def _missing(v):
+        if isinstance(v, ast.Constant):
+            return v.value is None or v.value == "."
+        if isinstance(v, ast.IfExp):
+            return _missing(v.body) and _missing(v.orelse)
+        return False
+
+    ok = len(els) == 1 and _missing(els[0].value)
+    ctx.ob(w.qual, "unphased-call-gets-no-tag", ok, w.loc(els[0].stmt) if els else w.loc(), "a target call that is not phased gets the missing value (None / '.') under the written tag" if ok else "the unphased branch does not clear the tag")
 
 
 def r5(ctx):
